@@ -44,4 +44,13 @@ fn main() {
             }
         }
     }
+    // a daemon-like child: closes both streams and keeps running until its standard input closes
+    if std::env::var_os("EMITTER_LINGER").is_some() {
+        unsafe {
+            libc::close(1);
+            libc::close(2);
+        }
+        let mut sink = Vec::new();
+        let _ = std::io::Read::read_to_end(&mut std::io::stdin(), &mut sink);
+    }
 }
